@@ -6,12 +6,17 @@ Driver for C06.
 Op language (one op per line):
 
 * `load <rule>…` — `hotspot.ClearRules(); hotspot.LoadRules(rules)`; a rule is one token
-  `res;c|q|t;paramIndex;paramKey;threshold;paramsMaxCapacity;v=thr,v=thr…` — `c` a Concurrency rule; `q` a QPS/Reject
+  `res;c|ct|q|t;paramIndex;paramKey;threshold;paramsMaxCapacity;v=thr,v=thr…` — `c` a Concurrency rule (`ct`: the same with
+  ControlBehavior Throttling, which the concurrency check ignores); `q` a QPS/Reject
   rule and `t` a QPS/Throttling rule, loaded by the harness with parameters under which they never block (`q`: threshold
   10^9 per second; `t`: threshold 1 per second, so that every request closer than `batch` seconds to the previous one for
   the value is *queued* — the slot sleeps on the virtual clock and goes on to the next rule — with MaxQueueingTimeMs 10^9);
   the model carries them as inert controllers, the generator keeps batch counts ≤ 5 in their presence (C05 is about them) (values: `i:<int>` an `int`,
   `l:<int>` an `int64`, `s:<text>`, `b:0|1`, `nil`)
+* `reload <rule>…` — `hotspot.LoadRules(rules)` on top of the rules in force (controllers of equal rules are kept, a
+  stat-reusable old rule lends its cells, a used old controller is not lent twice)
+* `trace <id>` — `api.TraceError(entry, err)`; `exit <id> err` — `entry.Exit(base.WithError(err))`: a business error must
+  not change anything about the unit the entry occupies or its release
 * `flowblock <res>` — a flow rule with threshold 0 on `res` (every entry there is blocked by the flow slot)
 * `entry <id> <res> [#batch] <val>… @key=val…` ⇒ `pass | block hot | block flow`
 * `exit <id>`
@@ -58,8 +63,11 @@ def parseRule? (s : String) : Option Rule :=
   | [res, kind, idx, key, thr, pmc, items] =>
     match idx.toInt?, thr.toInt?, pmc.toInt?, parseItems? items with
     | some idx, some thr, some pmc, some items =>
-      if kind == "c" || kind == "q" || kind == "t" then
-        some { res := res, conc := kind == "c", idx := idx, key := key, thr := thr, pmc := pmc, items := items }
+      -- the harness loads QPS rules with fixed threshold / capacity / no items whatever the token says
+      if kind == "c" then some { res := res, conc := true, cb := 0, idx := idx, key := key, thr := thr, pmc := pmc, items := items }
+      else if kind == "ct" then some { res := res, conc := true, cb := 1, idx := idx, key := key, thr := thr, pmc := pmc, items := items }
+      else if kind == "q" then some { res := res, conc := false, cb := 0, idx := idx, key := key, thr := 1000000000, pmc := 0, items := [] }
+      else if kind == "t" then some { res := res, conc := false, cb := 1, idx := idx, key := key, thr := 1, pmc := 0, items := [] }
       else none
     | _, _, _, _ => none
   | _ => none
@@ -97,6 +105,11 @@ def stepModel (s : St) (ts : List String) (_ : String) : St × Option String :=
   | "load" :: rs => match parseRules? rs with
     | some rules => (load s rules, none)
     | none => (s, some "bad-op")
+  | "reload" :: rs => match parseRules? rs with
+    | some rules => (reload s rules, none)
+    | none => (s, some "bad-op")
+  | ["trace", _] => (s, none)
+  | ["exit", id, "err"] => (exit s id, none)
   | ["flowblock", res] => (step s (.flowBlock res), none)
   | "entry" :: id :: res :: rest => match parseEntryArgs? rest with
     | some (as, ats) =>
@@ -123,6 +136,13 @@ def stepModel (s : St) (ts : List String) (_ : String) : St × Option String :=
 structure ORule where
   rule : Rule
   touched : List Val := []
+  fresh : Bool := true      -- set by a reload: the rule got new (empty) cells
+  compat : Bool := true     -- set by a reload: its cells were kept / inherited from a rule selecting the same argument
+
+def ORule.inherit (r : Rule) : Option ORule → ORule
+  | some o => { rule := r, touched := o.touched, fresh := false,
+                compat := o.rule.idx == r.idx && o.rule.key == r.key && o.rule.conc == r.conc }
+  | none => { rule := r, touched := [], fresh := true, compat := false }
 
 structure OLive where
   id : String
@@ -142,6 +162,7 @@ structure OPend where
   claimBlock : Bool       -- the property's verdict on the ledger at check time
   seenBlock : Bool        -- the property's verdict was "block" at some state since the check
   raced : Bool            -- another admission on the resource completed since the check
+  reloaded : Bool := false -- rules were (re)loaded since the check: its verdict was fixed under the earlier rules
 
 structure OSt where
   rules : List ORule := []
@@ -214,6 +235,24 @@ def stepOracle (s : OSt) (ts : List String) (line : String) : OSt × Option Stri
       ({ s with rules := (rules.filter Rule.valid).map fun r => { rule := r },
                 over := [], stale := (s.live.map (·.res) ++ s.pend.map (·.res)).eraseDups }, none)
     | none => (s, some "bad-op")
+  | "reload" :: rs => match parseRules? rs with
+    | some rules =>
+      let old := s.rules.map fun o => { o with fresh := false, compat := true }
+      let new := reuseBuild (fun o => o.rule) ORule.inherit (rules.filter Rule.valid) old
+      let ress := (new.map (·.rule.res) ++ s.stale ++ s.over).eraseDups
+      let hasLive (res : String) : Bool := s.live.any (fun e => e.res == res) || s.pend.any (fun p => p.res == res)
+      let concOf (res : String) : List ORule := new.filter fun o => o.rule.res == res && o.rule.conc
+      -- a claim needs cells that mean what the ledger means: with entries alive, every concurrency rule of the resource
+      -- must have kept / inherited its cells from a rule selecting the same argument; damaged cells stay damaged while inherited
+      let stale := ress.filter fun res =>
+        (hasLive res && (concOf res).any (fun o => !o.compat)) || (s.stale.contains res && (concOf res).any (fun o => !o.fresh))
+      let over := ress.filter fun res => s.over.contains res && (concOf res).any (fun o => !o.fresh)
+      ({ s with rules := new, stale := stale, over := over,
+                pend := s.pend.map fun p => { p with reloaded := true } }, none)
+    | none => (s, some "bad-op")
+  | ["trace", _] => (s, none)
+  | ["exit", id, "err"] =>
+    (refreshPend { s with live := s.live.filter fun e => !(e.id == id) } none, none)
   | ["flowblock", res] => ({ s with fb := res :: s.fb }, none)
   | "entry" :: id :: res :: rest => match parseEntryArgs? rest, res? with
     | some (as, ats), some got =>
@@ -258,7 +297,8 @@ def stepOracle (s : OSt) (ts : List String) (line : String) : OSt × Option Stri
         else if got != "pass" && got != "block hot" then (s1, some "bad unexpected result")
         else if p.noClaim || s0.stale.contains p.res then (s1, some "?")
         else if got == "pass" then
-          if !violNow then (s1, some "ok")
+          if !violNow || (!p.claimBlock && !p.raced) then (s1, some "ok")
+          else if p.reloaded then (s1, some "?")
           else if over then (s1, some "known:cell-evicted")
           else if p.raced && !p.claimBlock then
             if withinBound s0 p.res p.args p.atts then (s1, some "known:check-then-act-overshoot")
@@ -266,6 +306,7 @@ def stepOracle (s : OSt) (ts : List String) (line : String) : OSt × Option Stri
           else (s1, some "bad claimed block hot")
         else
           if p.seenBlock then (s1, some "ok")
+          else if p.reloaded then (s1, some "?")
           else if over then (s1, some "known:cell-evicted")
           else (s1, some "bad claimed pass")
   | ["exit", id] =>
